@@ -124,7 +124,22 @@ def long_list(s, how, n, tmpdir):
         docs.append(d)
     fold_text, n_failed, ferr, applied = K.hand_fold(s, docs, False)
     EV.drain()
-    for label, pdocs in (('reversed', docs[::-1]), ('shuffled', rng.sample(docs, len(docs)))):
+    def pivots_first(b):
+        # blocks of b documents, each opening with a high-numbered message (ascending from block to block)
+        # followed by low-numbered ones: a reader that sorts block by block and only glances at the first
+        # document of a block gets this wrong
+        rest = docs[1:]
+        nb = -(-(len(rest) + 1) // b)                     # every block - the last, shorter one too - opens with a pivot
+        hi, lo = rest[-nb:], rest[:-nb]
+        out, used = [], 0
+        for k in range(nb):
+            take = b - 1 - (1 if k == 0 else 0)          # the roCreate shares the first block: blocks stay b long
+            out.extend(([docs[0]] if k == 0 else []) + [hi[k]] + lo[used:used + take])
+            used += take
+        return out
+    orders = [('reversed', docs[::-1]), ('shuffled', rng.sample(docs, len(docs)))]
+    orders += [('pivots-first-%d' % b, pivots_first(b)) for b in ((100,) if n <= 1500 else (50, 100, 128, 250))]
+    for label, pdocs in orders:
         mc, cerr = K.make_collection(s, pdocs, how, True, tmpdir)
         wit = {'type': 'perm', 'docs': pdocs, 'how': how}
         s.evaluations += 1
@@ -146,6 +161,7 @@ def long_list(s, how, n, tmpdir):
 
 
 def run(s):
+    K.hostile_callers(s)
     q = s.tier == 'quick'
     tmpdir = tempfile.mkdtemp(prefix='verif-c10-')
     hows = ('strings', 'files', 's3')
